@@ -181,7 +181,9 @@ def update_pinning(ctx: Ctx, rule: str) -> None:
     for c in parses:
         kw = _kw(c)
         restr[kw.get("restriction")] = True
-    ok_r = set(restr) == {"setup_str", "param.re_str('all..customize')", "param.re_str('all..' + to_state)", "param.re_str('all..' + from_state)"}
+    from ..canon import same_set
+
+    ok_r = same_set(restr, ["setup_str", "param.re_str('all..customize')", "param.re_str('all..' + to_state)", "param.re_str('all..' + from_state)"])
     ctx.record(rule + "r", "PROV", UPD, "restrictions: clean = remove_set; run = all..<to_state> (all..customize for install); skip = all..<from_state>", ok_r, {"found": sorted(map(str, restr))},
                "" if ok_r else "the graphs of the update tool are parsed from other restrictions")
     d = {ast.unparse(s.targets[0]): ast.unparse(s.value) for s in ast.walk(fn.node) if isinstance(s, ast.Assign) and ast.unparse(s.targets[0]) in ("from_state", "to_state", "vm_objects", "selected_vms")}
@@ -257,12 +259,18 @@ def children_rules(ctx: Ctx, rule: str) -> None:
     ctx.record(rule, "TABLE", fref, "no root or several roots found -> AssertionError before any flag is assigned", bad is None and n_raise >= 2, {"raising_paths": n_raise},
                "" if bad is None and n_raise >= 2 else "flag_children flags something although the requested root is missing or ambiguous")
     src = ast.unparse(fn.node)
-    start = [i for i in fn.node.body if isinstance(i, ast.If) and ast.unparse(i.test) == "not skip_parents"]
+    # start set: the root itself, or only its children when skip_parents (written as if/else or as a conditional expression)
+    init = [s_ for s_ in fn.node.body if isinstance(s_, ast.Assign) and ast.unparse(s_.targets[0]) == "flagged"]
     walk = [w for w in fn.node.body if isinstance(w, ast.While)]
-    ok = len(start) == 1 and len(walk) == 1
+    ok = len(init) == 1 and len(walk) == 1 and isinstance(init[0].value, ast.IfExp)
     if ok:
-        ok = [ast.unparse(x) for x in start[0].body] == ["flagged = [test_node]"] and \
-            [ast.unparse(x) for x in start[0].orelse] == ["flagged = []", "flagged.extend(test_node.cleanup_nodes)"]
+        ie = init[0].value
+        f = norm.formula(ie.test)
+        a_, b_ = ast.unparse(ie.body), ast.unparse(ie.orelse)
+        if norm.equivalent(f, ("atom", "skip_parents")):
+            a_, b_ = b_, a_
+            f = norm.neg(f)
+        ok = norm.equivalent(f, norm.neg(("atom", "skip_parents"))) and a_ == "[test_node]" and b_ == "list(test_node.cleanup_nodes)"
         w = walk[0]
         ok = ok and ast.unparse(w.test) == "len(flagged) > 0" and ast.unparse(w.body[0]) == "test_node = flagged.pop()"
         tail = w.body[-1]
@@ -270,10 +278,16 @@ def children_rules(ctx: Ctx, rule: str) -> None:
             and not tail.orelse and not any(isinstance(x, (ast.Break, ast.Continue, ast.Return)) for x in ast.walk(w))
     ctx.record(rule + "w", "TABLE", fref, "walk: start at the root (or only its children with skip_parents), follow cleanup edges (unless skip_children)", ok, {},
                "" if ok else "the set of nodes flag_children reaches from its root changed")
-    sel = ("root_tests = self.get_nodes(param_key='shared_root', param_val='yes')" in src and "root_tests = self.get_nodes_by_name(node_name)" in src
-           and "param_key='vms', param_val='(?:^|\\\\s)' + object_name + '(?:$|\\\\s)', subset=root_tests" in src
-           and "param_key='name', param_val='(?:^|\\\\.)' + worker_name + '(?:$|\\\\.)', subset=root_tests" in src
-           and "param_key='object_root', param_val='(?:-|\\\\.|^)' + object_name + '(?:-|\\\\.|$)'" in src)
+    # the lookups as keyword tables (any equivalent way of building the regular expressions is accepted)
+    lookups = [{k.arg: ast.unparse(k.value) for k in c.keywords} for c in calls_in(fn.node) if call_name(c) == "get_nodes" and ast.unparse(c.func.value) == "self"]
+    want_lookups = [
+        {"param_key": "'shared_root'", "param_val": "'yes'"},
+        {"param_key": "'object_root'", "param_val": "'(?:-|\\.|^)' + object_name + '(?:-|\\.|$)'"},
+        {"param_key": "'vms'", "param_val": "'(?:^|\\s)' + object_name + '(?:$|\\s)'", "subset": "root_tests"},
+        {"param_key": "'name'", "param_val": "'(?:^|\\.)' + worker_name + '(?:$|\\.)'", "subset": "root_tests"},
+    ]
+    byname = [c for c in calls_in(fn.node) if call_name(c) == "get_nodes_by_name" and [ast.unparse(a_) for a_ in c.args] == ["node_name"]]
+    sel = len(lookups) == 4 and all(any(l == w for l in lookups) for w in want_lookups) and len(byname) == 1
     ctx.record(rule + "s", "PROV", fref, "root selection: shared root / object root of the vm / node by name, narrowed to the vm (whole word) and the worker (whole variant)", sel, {},
                "" if sel else "how flag_children selects its root node changed (other vms' or workers' nodes may match)")
 
